@@ -121,6 +121,7 @@ func (e *Enc) instr(in ssa.Instruction) {
 		m := e.val(x.Map)
 		mt := x.Map.Type().Underlying().(*types.Map)
 		e.panicObl("nilmap", x, fmt.Sprintf("(not (= %s 0))", m.S))
+		e.lockCheckWrite(x.Map, x)
 		e.frameCheckRef("map", m.S, x)
 		k := e.mapKeyT(mt)
 		h := e.get(e.st, k)
@@ -308,6 +309,9 @@ func (e *Enc) unop(x *ssa.UnOp) {
 		c := e.fresh(x.Name(), s)
 		e.assert(eq(c, v))
 		e.vals[x] = TV{c, s, x.Type()}
+		if g, isG := x.X.(*ssa.Global); isG {
+			e.globalLoads[c] = g.Name()
+		}
 		if p.Kind != pLocal {
 			e.refBound(c, x.Type(), e.st)
 			if s == sVal {
